@@ -324,7 +324,9 @@ func getParentConflictingRecord(ctx storage.Context, name string, fragments []st
 	parentKey := getTokenKey([]byte(name[len(fragments[0])+1:]))
 	parentRecKey := append([]byte{prefixRecord}, parentKey...)
 	it := storage.Find(ctx, parentRecKey, storage.ValuesOnly|storage.DeserializeValues)
-	suffix := []byte(name)
+	// a sub-name ends with ".name"; without the dot a sibling which merely ends
+	// with the same text (e.g. "myname" for "name") was taken for one
+	suffix := []byte("." + name)
 	for iterator.Next(it) {
 		r := iterator.Value(it).(RecordState)
 		ind := std.MemorySearchLastIndex([]byte(r.Name), suffix, len(r.Name))
